@@ -25,10 +25,12 @@ def run(chk):
               'RandomSubset); distinct = distinct action sequences; a behaviour is non-trivial when >= 1 step was replayed')
   chk.assumptions += ['leaf values are small ints (same abstract leaf = same Python object)',
                       'a node is never stored inside its own subtree (user error, not generated)']
-  symtree_check.model_check(chk, ['C01_quick.cfg'] + (['C01_thorough.cfg'] if thorough else []))
+  symtree_check.model_check(chk, ['C01_quick.cfg', 'C01_typed.cfg'] + (['C01_thorough.cfg'] if thorough else []))
   hits = {}
-  for cfg, num, depth in ([('C01_sim.cfg', 400, 30), ('C01_sim_obj.cfg', 250, 30), ('C01_sim_td.cfg', 250, 30)] if not thorough else
-                          [('C01_sim.cfg', 6000, 40), ('C01_sim_obj.cfg', 3000, 40), ('C01_sim_td.cfg', 3000, 40)]):
+  for cfg, num, depth in ([('C01_sim.cfg', 400, 30), ('C01_sim_obj.cfg', 250, 30), ('C01_sim_td.cfg', 250, 30),
+                           ('C01_sim_typed.cfg', 300, 30)] if not thorough else
+                          [('C01_sim.cfg', 6000, 40), ('C01_sim_obj.cfg', 3000, 40), ('C01_sim_td.cfg', 3000, 40),
+                           ('C01_sim_typed.cfg', 4000, 40)]):
     h = symtree_check.replay_simulated(chk, cfg, CLAUSES, num, depth, chk.seed, batches=1 if not thorough else 8)
     for k, v in h.items():
       hits[k] = hits.get(k, 0) + v
